@@ -155,7 +155,9 @@ func (h *NtfnsHandler) Start() error {
 
 func (h *NtfnsHandler) Stop() {
 	close(h.quit)
+	verifPoint("stop.quitclosed")
 	h.quitWg.Wait()
+	verifPoint("stop.joined")
 	h.walletMgr.CloseDB()
 }
 
@@ -166,12 +168,14 @@ func handle(h *NtfnsHandler) {
 	logging.CPrint(logging.INFO, "NtfnsHandler started", logging.LogFormat{})
 
 	for {
+		verifPoint("handle.loop")
 		select {
 		case <-h.quit:
 			logging.CPrint(logging.INFO, "NtfnsHandler stopped", logging.LogFormat{})
 			return
 
 		case <-h.sigSuspend:
+			verifPoint("handle.suspended")
 			<-h.sigResume
 
 		case block := <-h.queueBlock:
@@ -785,11 +789,13 @@ func worker(h *NtfnsHandler) {
 	})
 
 	for {
+		verifPoint("worker.loop")
 		select {
 		case <-h.quit:
 			logging.CPrint(logging.INFO, "NtfnsHandler worker stopped")
 			return
 		case task := <-h.taskChan.C:
+			verifPoint("worker.task")
 			switch task.taskType {
 			case WalletTaskImport:
 				fin, err := h.asyncImport(task.walletId)
@@ -840,6 +846,7 @@ func (h *NtfnsHandler) asyncImport(walletId string) (finish bool, err error) {
 		relatedHashes = append(relatedHashes, ma.ScriptAddress())
 	}
 
+	verifPoint("import.begin")
 	h.suspend(false, "[asyncImport] run", logging.LogFormat{"walletId": walletId})
 	defer func() {
 		h.resume(false, "[asyncImport] stop", logging.LogFormat{"walletId": walletId, "finish": finish})
@@ -1022,6 +1029,7 @@ func (h *NtfnsHandler) asyncRemove(walletId string) error {
 		case <-h.quit:
 			return ErrTaskAbort
 		default:
+			verifPoint("remove.round")
 			h.suspend(true, "[asyncRemove-2] deleting credits, keystore", logging.LogFormat{"walletId": walletId})
 			finish := false
 			var removedTx []*wire.Hash
@@ -1135,6 +1143,7 @@ func (h *NtfnsHandler) processConnectedBlock(newBlock *wire.MsgBlock) error {
 		}
 		return err
 	})
+	verifPoint("block.committed")
 	if err == nil {
 		h.memMtx.Lock()
 		// process rollback
@@ -1225,14 +1234,18 @@ func (h *NtfnsHandler) OnTransactionReceived(tx *wire.MsgTx) error {
 }
 
 func (h *NtfnsHandler) suspend(log bool, msg string, fields logging.LogFormat) {
+	verifPoint("suspend.before")
 	h.sigSuspend <- struct{}{}
+	verifPoint("suspend.after")
 	if log {
 		logging.VPrint(logging.INFO, msg, fields)
 	}
 }
 
 func (h *NtfnsHandler) resume(log bool, msg string, fields logging.LogFormat) {
+	verifPoint("resume.before")
 	h.sigResume <- struct{}{}
+	verifPoint("resume.after")
 	if log {
 		logging.VPrint(logging.INFO, msg, fields)
 	}
